@@ -46,4 +46,10 @@ CLAIMS = {
         note="Trusts harness/hapcfg's rule evaluator and the reference routing model; Lua's auth-request behaviour is reduced to 'txn.auth_response_successful is unset for an unauthenticated client'.",
         technique="property-based testing (rapid): oracle = evaluation of the written access rules for requests routed to protected paths (fail-closed), two-sided",
     ),
+    "C08": dict(
+        text="The 48-row class decision table is enumerated exhaustively against the real cache facade, and generated histories of class transitions are checked after every reconciliation: everything the written configuration routes must come from an Ingress the documented class rules select, and everything a selected Ingress declares must be routed.",
+        design_ref="DESIGN.md section 3, C08",
+        note="Decision table compared with a reference written from docs (keys.md 'Class matter', command-line 'ingress-class'); the legacy controller's copy of IsValidIngress is not exercised; routing read through harness/hapcfg.",
+        technique="exhaustive enumeration of the decision table + stateful property-based testing (rapid) against a reference model of class selection and routing",
+    ),
 }
